@@ -154,12 +154,20 @@ def main(chk):
       def step(mm, x):
         inside_nnx.append((tuple(mm.w.sharding), tuple(mm.w.value.shape)))
         return x
+      # rendering of the StateAxes: the mapped group first / after a broadcast (None) group / after a broadcast and a Carry group
+      sa_form = (idx // 2) % 3
+      sa = [lambda a: nnx.StateAxes({nnx.Param: a}), lambda a: nnx.StateAxes({(nnx.BatchStat, nnx.Cache): None, ...: a}),
+            lambda a: nnx.StateAxes({nnx.BatchStat: None, nnx.Cache: (nnx.Carry if idx % 2 == 0 else None), ...: a})][sa_form]
+      if sa_form:
+        key += f':state-axes-form={sa_form}'
+        m.stat = nnx.BatchStat(jnp.zeros((2,)), sharding=('st',))
+        m.cache = nnx.Cache(jnp.zeros((2,)))
       if outer == 'none':
         if idx % 2:
-          nnx.vmap(step, in_axes=(nnx.StateAxes({nnx.Param: n1}), 0), out_axes=0,
+          nnx.vmap(step, in_axes=(sa(n1), 0), out_axes=0,
                    transform_metadata={nnx.PARTITION_NAME: pname})(m, jnp.zeros(5))
         else:
-          nnx.scan(lambda mm, c, x: (c, step(mm, x)), in_axes=(nnx.StateAxes({nnx.Param: n1}), nnx.Carry, 0), out_axes=(nnx.Carry, 0),
+          nnx.scan(lambda mm, c, x: (c, step(mm, x)), in_axes=(sa(n1), nnx.Carry, 0), out_axes=(nnx.Carry, 0),
                    transform_metadata={nnx.PARTITION_NAME: pname})(m, jnp.zeros(()), jnp.zeros(5))
     except Exception as e:
       chk.violation(key, f'raised {type(e).__name__}: {str(e)[:200]}', case)
